@@ -9,6 +9,9 @@ from lib import c10c11 as L
 
 OPS = ["dequeue", "ack", "nack", "extend"]
 TOKEN_POOL = ["tok-A1b2C3", "s3cr3t/With+chars=", "abc", "abcdef", "Zq9-route", "p@ss:w0rd", "in ner", "UPPERlower", "x", "tok-A1b2C3-long"]
+# long tokens (JWT-sized secrets): every byte of a token counts, not only the first few hundred (chosen for about one token in fifteen:
+# the byte lists make the model evaluation slow)
+LONG_TOKENS = ["eyJhbGciOiJIUzI1NiJ9." + "QmFzZTY0" * 36 + ".sig-A", "k" * 256 + "Z", "m" * 257, "L0ng-" + "0123456789abcdef" * 33]
 
 
 def q(s):
@@ -39,7 +42,7 @@ def gen_tokens(rng, ci, tag, n, used):
     out = []
     for k in range(n):
         while True:
-            val = rng.choice(TOKEN_POOL) + ("" if rng.random() < 0.5 else "-%s%d" % (tag, k))
+            val = (rng.choice(LONG_TOKENS) if rng.random() < 0.07 else rng.choice(TOKEN_POOL)) + ("" if rng.random() < 0.5 else "-%s%d" % (tag, k))
             if val not in used:
                 used.add(val)
                 break
@@ -128,6 +131,11 @@ def auth_variants(rng, good, others):
               ["Bearer " + g + "x"], ["Bearer x" + g], ["Bearer " + flips] if flips != g else ["Bearer " + g + "X"],
               ["Bearer " + g + " extra"], ["Bearer nope", "Bearer " + g], ["Bearer " + g, "Bearer nope"], [g], ["Bearer Bearer " + g],
               ["Basic " + g], ["  Bearer " + g]]
+        # the same length with ONE character replaced, at the ends, in the middle and around byte 255/256/257 and 1023/1024
+        for pos in sorted({0, len(g) // 2, len(g) - 1, 254, 255, 256, 257, 511, 512, 1023, 1024}):
+            if 0 <= pos < len(g):
+                ch = "Q" if g[pos] != "Q" else "R"
+                v.append(["Bearer " + g[:pos] + ch + g[pos + 1:]])
     return v
 
 
@@ -764,4 +772,7 @@ def variant_class(rq, c):
             return "prefix"
         if t != tok and (t.endswith(tok) or tok.startswith(t) or tok.endswith(t)):
             return "suffix-or-extension"
+    for t in allvals:
+        if len(t) == len(tok) and sum(1 for a, b in zip(t, tok) if a != b) == 1:
+            return "one-character-off:%s" % ("long-token" if len(t) > 200 else "short-token")
     return "unknown-token"
